@@ -1,6 +1,7 @@
 /- `ldap_escape` against the filter grammar and the model filter parser of the C08 slice:
 helper lemmas for the filter-level theorems of C09; no property statements here. -/
 import Ldap3V.Lemmas.Escape
+import Ldap3V.Lemmas.EscapeUtf8
 import Ldap3V.Lemmas.FilterInv
 import Ldap3V.Lemmas.FilterTlv
 import Ldap3V.Spec.FilterCtx
@@ -149,20 +150,69 @@ theorem filter_of_item {b : Bytes} {t : Tag} {rest : Bytes} {c : UInt8} {x : Byt
 
 end Filter
 
+/-- a parenthesised item at top level, with the tag the item parser returned -/
+theorem parse_of_item_exact {b : Bytes} {t : Tag} {c : UInt8} {x : Bytes}
+    (hi : Filter.item (b ++ [0x29]) = .ok t [0x29]) (eb : b = c :: x) (hc : c ≠ 0x26 ∧ c ≠ 0x7C ∧ c ≠ 0x21) :
+    Filter.parse ([0x28] ++ b ++ [0x29]) = some t := by
+  have hf := Filter.filter_of_item (rest := []) ([0x28] ++ b ++ [0x29]).length hi eb hc
+  rw [(Filter.parse_some_iff _ _)]
+  unfold Filter.parseO Filter.filtexpr
+  rw [Filter.alt_left (by simpa using hf)]
+  rfl
+
+theorem attr_head_ok {a : Bytes} (ha : IsAttrDesc .lib a) :
+    ∃ c x, a = c :: x ∧ (c ≠ 0x26 ∧ c ≠ 0x7C ∧ c ≠ 0x21) := by
+  obtain ⟨⟨c, x, ea, hc⟩, _⟩ := Filter.attrDesc_chars ha
+  refine ⟨c, x, ea, ?_, ?_, ?_⟩ <;> (intro e0; subst e0; revert hc; decide)
+
 theorem parse_eq_exact {a v sv : Bytes} (ha : IsAttrDesc .lib a) (hv : Spec.Filter.RVal v sv) :
     Filter.parse ([0x28] ++ a ++ [0x3D] ++ sv ++ [0x29]) =
       some (.sequence 2 3 [.octetString 0 4 a, .octetString 0 4 v]) := by
-  obtain ⟨⟨c, x, ea, hc⟩, _⟩ := Filter.attrDesc_chars ha
-  have hne : c ≠ 0x26 ∧ c ≠ 0x7C ∧ c ≠ 0x21 := by
-    refine ⟨?_, ?_, ?_⟩ <;> (intro e0; subst e0; revert hc; decide)
+  obtain ⟨c, x, ea, hne⟩ := attr_head_ok ha
   have hi := Filter.item_of_eq (Filter.eq_exact (r := [0x29]) ha hv rfl)
-  have hf := Filter.filter_of_item (rest := []) (c := c) (x := x ++ 0x3D :: sv)
-    (([0x28] ++ a ++ [0x3D] ++ sv ++ [0x29]).length) hi (by rw [ea]; simp) hne
-  have e : [0x28] ++ a ++ [0x3D] ++ sv ++ [0x29] = 0x28 :: ((a ++ 0x3D :: sv) ++ [0x29]) := by simp
-  rw [(Filter.parse_some_iff _ _)]
-  unfold Filter.parseO Filter.filtexpr
-  rw [Filter.alt_left (by rw [e] at hf ⊢; exact hf)]
-  rfl
+  have := parse_of_item_exact (c := c) (x := x ++ 0x3D :: sv) hi (by rw [ea]; simp) hne
+  simpa using this
+
+/-- `a>=v`, `a<=v`, `a~=v`: operator octet `c`, tag number `id` -/
+theorem parse_nonEq_exact {a v sv : Bytes} {c : UInt8} {id : Nat} (ha : IsAttrDesc .lib a)
+    (hv : Spec.Filter.RVal v sv) (hc : Filter.isAlnumHyphen c = false ∧ c ≠ 0x2E ∧ c ≠ 0x3B) (hc2 : c ≠ 0x3D)
+    (hop : ∀ rest, Filter.opTag (c :: 0x3D :: rest) = .ok [c, 0x3D] rest)
+    (hid : Filter.filtertag [c, 0x3D] = some id) :
+    Filter.parse ([0x28] ++ a ++ [c, 0x3D] ++ sv ++ [0x29]) =
+      some (.sequence 2 id [.octetString 0 4 a, .octetString 0 4 v]) := by
+  obtain ⟨c0, x, ea, hne⟩ := attr_head_ok ha
+  have hattr : Filter.attributedescription (a ++ (c :: 0x3D :: (sv ++ [0x29]))) = .ok a _ :=
+    Filter.attributedescription_complete ha hc
+  have e : (a ++ c :: 0x3D :: sv) ++ [0x29] = a ++ (c :: 0x3D :: (sv ++ [0x29])) := by simp
+  have hi := Filter.item_of_nonEq (by rw [e]; exact Filter.eq_err_of_attr hattr hc2)
+    (Filter.nonEq_complete (r := [0x29]) ha hv rfl hc hop hid)
+  have := parse_of_item_exact (c := c0) (x := x ++ c :: 0x3D :: sv) hi (by rw [ea]; simp) hne
+  simpa [Filter.octets] using this
+
+theorem parse_ge_exact {a v sv : Bytes} (ha : IsAttrDesc .lib a) (hv : Spec.Filter.RVal v sv) :
+    Filter.parse ([0x28] ++ a ++ [0x3E, 0x3D] ++ sv ++ [0x29]) =
+      some (.sequence 2 5 [.octetString 0 4 a, .octetString 0 4 v]) :=
+  parse_nonEq_exact ha hv (by simp [Filter.isAlnumHyphen, Filter.isAlnum, Filter.isAlpha, Filter.isDigit]) (by decide)
+    (fun rest => Filter.alt_left (Filter.tag_append [0x3E, 0x3D] rest)) (by simp [Filter.filtertag])
+
+theorem parse_le_exact {a v sv : Bytes} (ha : IsAttrDesc .lib a) (hv : Spec.Filter.RVal v sv) :
+    Filter.parse ([0x28] ++ a ++ [0x3C, 0x3D] ++ sv ++ [0x29]) =
+      some (.sequence 2 6 [.octetString 0 4 a, .octetString 0 4 v]) :=
+  parse_nonEq_exact ha hv (by simp [Filter.isAlnumHyphen, Filter.isAlnum, Filter.isAlpha, Filter.isDigit]) (by decide)
+    (fun rest => by
+      unfold Filter.opTag
+      rw [Filter.alt_right (Filter.tag_err_of_head rfl (by decide))]
+      exact Filter.alt_left (Filter.tag_append [0x3C, 0x3D] rest)) (by simp [Filter.filtertag])
+
+theorem parse_approx_exact {a v sv : Bytes} (ha : IsAttrDesc .lib a) (hv : Spec.Filter.RVal v sv) :
+    Filter.parse ([0x28] ++ a ++ [0x7E, 0x3D] ++ sv ++ [0x29]) =
+      some (.sequence 2 8 [.octetString 0 4 a, .octetString 0 4 v]) :=
+  parse_nonEq_exact ha hv (by simp [Filter.isAlnumHyphen, Filter.isAlnum, Filter.isAlpha, Filter.isDigit]) (by decide)
+    (fun rest => by
+      unfold Filter.opTag
+      rw [Filter.alt_right (Filter.tag_err_of_head rfl (by decide)),
+        Filter.alt_right (Filter.tag_err_of_head rfl (by decide))]
+      exact Filter.tag_append [0x7E, 0x3D] rest) (by simp [Filter.filtertag])
 
 /-! ### substring pieces -/
 
@@ -306,5 +356,60 @@ theorem ext_G {d : Dialect} {a kw : Bytes} {rule : Option Bytes} {dn : Bool} {v 
     G d (.ext rule (some a) v dn) (extText a dn kw rule s) := by
   have := Filter.G_of_item (GItem.extAttr ha hk ho hn hv)
   cases dn <;> cases rule <;> simpa [extText, Spec.Filter.optStr] using this
+
+/-! ### the text is UTF-8 and in the RFC 4515 language as written -/
+
+theorem utf8_append_fuel (Y : Bytes) : ∀ (n : Nat) (X : Bytes), X.length ≤ n → utf8Valid X = true →
+    utf8Valid (X ++ Y) = utf8Valid Y := by
+  intro n
+  induction n with
+  | zero =>
+    intro X hn _
+    cases X with
+    | nil => rfl
+    | cons c X => simp at hn
+  | succ n ih =>
+    intro X hn hX
+    cases X with
+    | nil => rfl
+    | cons b0 r =>
+      simp only [List.length_cons] at hn
+      rcases utf8_cases b0 r hX with ⟨h0, hr⟩ | ⟨b1, r1, rfl, hm, hr⟩ | ⟨b1, b2, r2, rfl, hm, hr⟩ |
+          ⟨b1, b2, b3, r3, rfl, hm, hr⟩
+      · rw [List.cons_append, utf8_cons_ascii _ _ h0]; exact ih r (by omega) hr
+      · simp only [List.cons_append, List.length_cons] at hn ⊢
+        rw [utf8_mb2 _ _ _ hm]; exact ih r1 (by omega) hr
+      · simp only [List.cons_append, List.length_cons] at hn ⊢
+        rw [utf8_mb3 _ _ _ _ hm]; exact ih r2 (by omega) hr
+      · simp only [List.cons_append, List.length_cons] at hn ⊢
+        rw [utf8_mb4 _ _ _ _ _ hm]; exact ih r3 (by omega) hr
+
+theorem utf8_append (X Y : Bytes) (h : utf8Valid X = true) : utf8Valid (X ++ Y) = utf8Valid Y :=
+  utf8_append_fuel Y X.length X (Nat.le_refl _) h
+
+set_option maxRecDepth 100000 in
+theorem attrOctet_ascii : ∀ y : UInt8, (Filter.isAlnumHyphen y = true ∨ y = 0x2E ∨ y = 0x3B) → y.toNat < 0x80 := by
+  apply forall_u8; decide
+
+theorem utf8_ldapEscape (v : Bytes) (h : utf8Valid v = true) : utf8Valid (ldapEscape v) = true := by
+  rw [ldapEscape_eq]; exact utf8_escMap ldapNeed ldapNeed_ascii v.length v 0 (Nat.le_refl _) h
+
+theorem valItem_text_utf8 {d : Dialect} (it : ValItem) (ha : IsAttrDesc d it.attr) (v : Bytes)
+    (hv : utf8Valid v = true) : utf8Valid (it.text (ldapEscape v)) = true := by
+  have hattr : ∀ b ∈ it.attr, b.toNat < 0x80 := fun b hb => attrOctet_ascii b ((Filter.attrDesc_chars ha).2 b hb)
+  have hop : ∀ b ∈ it.op, b.toNat < 0x80 := by
+    cases it <;> (intro b hb; simp only [ValItem.op, List.mem_cons, List.not_mem_nil, or_false] at hb) <;>
+      (rcases hb with rfl | rfl) <;> decide
+  have hpre : ∀ b ∈ [0x28] ++ it.attr ++ it.op, b.toNat < 0x80 := by
+    intro b hb
+    simp only [List.mem_append, List.mem_singleton] at hb
+    rcases hb with (rfl | hb) | hb
+    · decide
+    · exact hattr b hb
+    · exact hop b hb
+  have e : it.text (ldapEscape v) = ([0x28] ++ it.attr ++ it.op) ++ (ldapEscape v ++ [0x29]) := by
+    simp [ValItem.text]
+  rw [e, utf8_append_ascii _ _ hpre, utf8_append _ _ (utf8_ldapEscape v hv)]
+  decide
 
 end Ldap3V
